@@ -62,7 +62,7 @@ fn tie_sources(rng: &mut util::Rng) -> Vec<String> {
     let stems = ["total", "item", "cfg", "node", "val"];
     let sufs = ["a", "b", "c", "d", "e", "f", "g", "h"];
     let mut out = Vec::new();
-    for shape in 0..5 {
+    for shape in 0..7 {
         let stem = stems[rng.below(stems.len() as u64) as usize];
         let k = 2 + rng.below(5) as usize;
         let mut ss: Vec<&str> = sufs.to_vec();
@@ -86,6 +86,26 @@ fn tie_sources(rng: &mut util::Rng) -> Vec<String> {
             }
             // attribute of a struct
             3 => format!("st = struct({})\nemit(st.{})\n", names.iter().map(|n| format!("{} = 1", n)).collect::<Vec<_>>().join(", "), miss),
+            // several diagnostics of equal rank in one def / across defs: ill-typed assignments to
+            // different variables (the order of the report, and which one fails a statically checked
+            // evaluation, are outputs)
+            5 | 6 => {
+                let bad = ["1 + \"x\"", "[] + 1", "\"s\" - 1", "2 + None", "{} + 1", "(1,) + [2]", "None + 1", "\"a\" * \"b\""];
+                let mut lines: Vec<String> = Vec::new();
+                for (i, n) in names.iter().enumerate() {
+                    let e = bad[(i + rng.below(bad.len() as u64) as usize) % bad.len()];
+                    if shape == 5 {
+                        lines.push(format!("    {} = {}", n, e));
+                    } else {
+                        lines.push(format!("def fn_{}():\n    {} = {}\n    return {}", n, n, e, n));
+                    }
+                }
+                if shape == 5 {
+                    format!("def compute():\n{}\n    return 0\n", lines.join("\n"))
+                } else {
+                    format!("{}\n", lines.join("\n"))
+                }
+            }
             // named argument of a def
             _ => format!("def callee({}):\n    return 1\ncallee({} = 1)\n", names.iter().map(|n| format!("{} = 0", n)).collect::<Vec<_>>().join(", "), miss),
         };
@@ -110,7 +130,19 @@ fn observe_static(src: &str, globals: &starlark::environment::Globals) -> J {
         }),
         Err(e) => format!("{}", e),
     };
-    json!({"err": err, "typecheck": tc})
+    // the same with the compile-time checker: the error that stops the evaluation
+    let err_static = match AstModule::parse("tie.star", src.to_owned(), &run::dialect()) {
+        Ok(ast) => Module::with_temp_heap(|module| {
+            let mut eval = Evaluator::new(&module);
+            eval.enable_static_typechecking(true);
+            match eval.eval_module(ast, globals) {
+                Ok(v) => format!("ok: {}", v.to_repr()),
+                Err(e) => format!("{}", e),
+            }
+        }),
+        Err(e) => format!("{}", e),
+    };
+    json!({"err": err, "typecheck": tc, "err_static": err_static})
 }
 
 fn observe(src: &str, globals: &starlark::environment::Globals) -> J {
